@@ -19,7 +19,8 @@ class CachedFunc:
         self.qual = getattr(func, "qual", None)
 
     def call(self, interp, args, kwargs):
-        store = interp.st.ghost.setdefault(("cache", id(self)), [])
+        # one cache per decorated function (the wrapper object may be rebuilt when the global is looked up again)
+        store = interp.st.ghost.setdefault(("cache", self.qual or id(self)), [])
         for (a, k, r) in store:
             if len(a) == len(args) and k.keys() == kwargs.keys():
                 c = interp.and_(*[interp.eq(x, y) for x, y in zip(a, args)],
